@@ -6,6 +6,7 @@ A second check (`C01s`) observes `compare_strings(x, y)` on bare component strin
 import DebInspector.Props.Common
 import DebInspector.Model.Version
 import DebInspector.Spec.Dpkg
+import DebInspector.Spec.DpkgOrder
 
 namespace Props.C01
 open Proto Py Spec
@@ -21,7 +22,7 @@ def holdsOn (i : Input) (obs : Obs) : Bool :=
   let a := strip i.1
   let b := strip i.2
   (match obs with
-   | .ok r => !(Policy.valid a && Policy.valid b) || r == Dpkg.compareStr a b
+   | .ok r => !(Policy.valid a && Policy.valid b) || r == VerOrder.dpkgCmpVersions a b
    | .error _ => true) &&
   (!(Policy.mustAccept Generated.intMaxStrDigits a && Policy.mustAccept Generated.intMaxStrDigits b)
     || Props.isOk obs)
@@ -42,8 +43,20 @@ def modelS (i : Input) : Obs := Model.Version.compareStrings i.1 i.2
 def holdsOnS (i : Input) (obs : Obs) : Bool :=
   !(componentOk i.1 && componentOk i.2) ||
     (match obs with
-     | .ok r => r == Dpkg.sign (Dpkg.verrevcmp i.1 i.2)
+     | .ok r => r == VerOrder.dpkgCmpStr i.1 i.2
      | .error _ => false)
+
+/-- support only (no theorem yet): the transliteration of dpkg's C `verrevcmp` / `dpkg_version_compare`
+gives the same answer as the observation; it cross-checks the declarative order used above -/
+def holdsOnC (i : Input) (obs : Obs) : Bool :=
+  let a := strip i.1
+  let b := strip i.2
+  match obs with
+  | .ok r => !(Policy.valid a && Policy.valid b) || r == Dpkg.compareStr a b
+  | .error _ => true
+
+def checkC : Props.Check Input Obs :=
+  { decI := Props.decPairStr, decO, encO, model, holdsOn := holdsOnC }
 
 def checkS : Props.Check Input Obs :=
   { decI := Props.decPairStr, decO, encO, model := modelS, holdsOn := holdsOnS }
